@@ -7,7 +7,7 @@ use simplicity::node::{
     Inner, JetConstructible, NoDisconnect, NoWitness, Node, WitnessConstructible,
 };
 use simplicity::types::arrow::Arrow;
-use simplicity::{types, CommitNode, FailEntropy};
+use simplicity::{types, CommitNode, FailEntropy, RedeemNode};
 use simplicity::{Cmr, ConstructNode as WitnessNode};
 
 use crate::str::WitnessName;
@@ -154,6 +154,114 @@ pub fn to_witness_node(node: &ConstructNode, values: WitnessValues) -> Arc<Witne
     };
     node.convert::<InternalSharing, _, _>(&mut populator)
         .unwrap()
+}
+
+/// Finalize the witness program as an unpruned redeem program.
+///
+/// The types of the witness program are inferred from its structure alone,
+/// exactly like a decoder infers them from the serialized program.
+/// A witness value that is never inspected by the program may therefore be assigned
+/// to a node whose final type is smaller than the declared Simfony type.
+/// Each witness value is shrunk to the final type of its node,
+/// so the redeem program is well-typed, serializable and executable.
+pub fn finalize_unpruned(
+    node: &WitnessNode<Elements>,
+) -> Result<Arc<RedeemNode<Elements>>, simplicity::Error> {
+    struct Finalizer;
+
+    impl<J: Jet> Converter<node::Construct<J>, node::Redeem<J>> for Finalizer {
+        type Error = simplicity::Error;
+
+        fn convert_witness(
+            &mut self,
+            data: &PostOrderIterItem<&WitnessNode<J>>,
+            witness: &Option<simplicity::Value>,
+        ) -> Result<simplicity::Value, Self::Error> {
+            let ty = data.node.arrow().target.finalize()?;
+            match witness {
+                Some(value) => Ok(shrink_value(value, &ty)
+                    .expect("declared witness type is an instance of the inferred type")),
+                None => Ok(simplicity::Value::zero(&ty)),
+            }
+        }
+
+        fn convert_disconnect(
+            &mut self,
+            _: &PostOrderIterItem<&WitnessNode<J>>,
+            maybe_converted: Option<&Arc<RedeemNode<J>>>,
+            _: &Option<Arc<WitnessNode<J>>>,
+        ) -> Result<Arc<RedeemNode<J>>, Self::Error> {
+            maybe_converted
+                .map(Arc::clone)
+                .ok_or(simplicity::Error::DisconnectRedeemTime)
+        }
+
+        fn convert_data(
+            &mut self,
+            data: &PostOrderIterItem<&WitnessNode<J>>,
+            inner: Inner<&Arc<RedeemNode<J>>, J, &Arc<RedeemNode<J>>, &simplicity::Value>,
+        ) -> Result<Arc<node::RedeemData<J>>, Self::Error> {
+            let converted_data = inner
+                .map(|node| node.cached_data())
+                .map_disconnect(|node| node.cached_data())
+                .map_witness(simplicity::Value::shallow_clone);
+            Ok(Arc::new(node::RedeemData::new(
+                data.node.arrow().finalize()?,
+                converted_data,
+            )))
+        }
+    }
+
+    node.convert::<InternalSharing, _, _>(&mut Finalizer)
+}
+
+/// Shrink `value` to the type `ty`, which is the type of `value`
+/// with some subtrees replaced by the unit type.
+///
+/// The parts of the value that lie in those subtrees are dropped.
+/// The shrunk value is rebuilt from its compact bit encoding,
+/// so it never shares (possibly unaligned) bit data with the original value.
+fn shrink_value(value: &simplicity::Value, ty: &types::Final) -> Option<simplicity::Value> {
+    use simplicity::types::CompleteBound;
+
+    fn collect_bits(
+        value: simplicity::ValueRef,
+        ty: &types::Final,
+        bits: &mut Vec<bool>,
+    ) -> Option<()> {
+        match ty.bound() {
+            CompleteBound::Unit => Some(()),
+            CompleteBound::Sum(ty_l, ty_r) => match value.as_left() {
+                Some(value_l) => {
+                    bits.push(false);
+                    collect_bits(value_l, ty_l, bits)
+                }
+                None => {
+                    bits.push(true);
+                    collect_bits(value.as_right()?, ty_r, bits)
+                }
+            },
+            CompleteBound::Product(ty_l, ty_r) => {
+                let (value_l, value_r) = value.as_product()?;
+                collect_bits(value_l, ty_l, bits)?;
+                collect_bits(value_r, ty_r, bits)
+            }
+        }
+    }
+
+    let mut bits = Vec::new();
+    collect_bits(value.as_ref(), ty, &mut bits)?;
+    let bytes: Vec<u8> = bits
+        .chunks(8)
+        .map(|chunk| {
+            chunk
+                .iter()
+                .enumerate()
+                .fold(0u8, |byte, (i, bit)| byte | (u8::from(*bit) << (7 - i)))
+        })
+        .collect();
+    let mut bit_iter = simplicity::BitIter::from(bytes.into_iter());
+    simplicity::Value::from_compact_bits(&mut bit_iter, ty).ok()
 }
 
 /// Copy of [`node::ConstructData`] with an implementation of [`WitnessConstructible<WitnessName>`].
